@@ -81,6 +81,18 @@ def run(repo, rep, tier):
     from . import c05 as _c05
     L.borrow(repo, rep, "R08.1", "C05", _c05.repeat_first_context,
              ("repeat-first-context",))
+    # the numeral that the loop over the value table builds is what Roman
+    # returns (and roman, in lower case)
+    ro = repo.cls("chameleon.tal.RepeatItem").methods["Roman"]
+    acc = [a_ for a_ in ast.walk(ro.node) if isinstance(a_, ast.Assign)
+           and isinstance(a_.targets[0], ast.Name)
+           and isinstance(getattr(a_, "_parent", None), ast.For)]
+    rets_ = [r_ for r_ in ast.walk(ro.node) if isinstance(r_, ast.Return)]
+    rep.check(bool(acc) and len(rets_) == 1 and isinstance(
+        rets_[0].value, ast.Name) and rets_[0].value.id in {
+            a_.targets[0].id for a_ in acc}, "R08.3", ro.qualname,
+        "Roman returns the numeral it has put together",
+        construct="roman-returned", where=L.where(ro))
     # the position values are numbers that may also be called (the legacy
     # spelling repeat.x.number()): the descriptor wraps what it computes
     di = repo.cls("chameleon.utils.descriptorint").methods["__get__"]
